@@ -787,3 +787,18 @@ Proof.
   - rewrite Nat.eqb_refl. cbn [map]. rewrite run_hist_snoc'. rewrite IH. reflexivity.
   - destruct (Nat.eqb_spec d d') as [Heq|_]; [congruence|]. cbn [map]. rewrite app_nil_r. exact IH.
 Qed.
+
+Lemma single_per_daemon sh (Hok : shape_ok sh = true) (w : nat -> world) modes (h : list (nat * event)) (d c : nat) :
+  modes c = MSingle ->
+  (forall k k' a b, In (Call k c, Served a) (snd (mrun sh w modes h d)) ->
+                    In (Call k' c, Served b) (snd (mrun sh w modes h d)) -> a = b) /\
+  (forall k a, In (Call k c, Served a) (snd (mrun sh w modes h d)) ->
+     nth_error (log (fst (mrun sh w modes h d))) (iid a) = Some (c, OMade (itruthy a) (ieqnone a)) /\
+     w d (iid a) c = OMade (itruthy a) (ieqnone a)).
+Proof.
+  intros Hm. rewrite daemons_independent. split.
+  - apply (single_one_instance sh Hok (w d) modes (proj d h) c Hm).
+  - intros k a Hin. pose proof (run_hist_reach sh (w d) modes (proj d h)) as Hr.
+    destruct (basic_inv sh Hok (w d) modes _ _ Hr) as (B1 & _).
+    destruct (B1 _ _ _ Hin) as (_ & H2 & _ & H4). auto.
+Qed.
